@@ -19,8 +19,14 @@ TRUSTED = ['hand-written Gallina mirror of MPS.orthonormalize / MPO.orthonormali
            'numpy.linalg.qr (LAPACK geqrf/orgqr): contract Q R = B, Q^H Q = I, shapes, real diagonal of R; assumed in the theorems only for the issued calls; measured on every recorded call (1e-12; diagonal exactly real)',
            'the MPO statements are about the MPS view (pair (s,t) as physical index s*d+t, charge qd[s]-qd[t]); the view itself is validated by the replay of MPO.orthonormalize',
            'independent numpy re-implementation of the clauses (dense contraction) in harness/props/c01.py (search only)']
-PARTIAL = ('see Properties/C01.v: proved for all inputs = the theorems listed there; validated numerically on every generated input only = '
-           'whatever is named _partial there or kept as a comment, rounding (isometry exact in the theorem, 1e-8 in prop), that the code computes what the model computes.')
+PARTIAL = ('proved for all inputs (Properties/C01.v, all closed under the global context): C01_orth_left_spec, C01_orth_right_spec (MPS) and C01_mpo_orth_left_spec, '
+           'C01_mpo_orth_right_spec (MPO through the physical-pair view): for every ordered field, L >= 1, d >= 1, bond profile with first/last dimension 1 and all bonds >= 1, '
+           'all charges, every well-formed block-sparse object and every QR oracle meeting LAPACK\'s contract (shapes, Q R = B, Q^H Q = I, real diagonal of R) on the issued calls: '
+           'the model does not fail; factor >= 0; amp psi w = factor * amp psi\' w for every word; factor^2 = <psi|psi>; <psi\'|psi\'> = 1 (also for zero states); every site an '
+           'isometry in the sweep direction; result well-formed and block sparse under the new bond charges; new bond <= min(pd * previous new bond, old bond); '
+           'C01_orth_empty (no sites: returns 1). '
+           'Validated numerically on every generated input only: that numpy.linalg.qr meets the contract (measured per call), rounding (isometry exact in the theorem, 1e-8 in prop), '
+           'that the code computes what the model computes (replay, form R, on the replayed subset).')
 ASSUMPTIONS = ['binary64 values are read as exact rationals; float arithmetic after a primitive (R @ Anext) is compared with tolerance 1e-9*(1+scale)']
 NREPLAY = {'quick': 110, 'thorough': 600, 'search': 0}
 NREPLAY_CHARGED = {'quick': 24, 'thorough': 150, 'search': 0}
